@@ -58,6 +58,8 @@ def _impl():
     from ppci.lang.python import python_to_ir
     from ppci.lang.python.python2ir import PythonToIrCompiler
     import irsem_py
+    import logging
+    logging.getLogger('p2p').setLevel(logging.ERROR)
     return python_to_ir, PythonToIrCompiler, irsem_py
 
 
@@ -132,7 +134,7 @@ def export_tables():
         binops.append((k.__name__, v))
     cmps = export_compare_map(PythonToIrCompiler)
     fd = export_prog(python_to_ir, '//')
-    return {'binops': binops, 'cmps': cmps, 'floordiv': fd or []}
+    return {'binops': binops, 'cmps': cmps, 'floordiv': fd or [], 'for': export_for()}
 
 
 def table_text(t):
@@ -146,7 +148,9 @@ def table_text(t):
             'Definition cmp_tab : tab := %s.\n'
             'Definition floordiv_prog : sprog := %s.\n'
             'Definition lowcfg_cur : lowcfg := mk_lowcfg binop_tab cmp_tab floordiv_prog.\n'
-            % (SRC, tab(t['binops']), tab(t['cmps']), prog))
+            'Definition for_variant_cur : variant := %s.\n'
+            'Definition for_loopvar_cur : loopvar := %s.\n'
+            % (SRC, tab(t['binops']), tab(t['cmps']), prog, t['for']['variant'], t['for']['loopvar']))
 
 
 def regen(ctx):
@@ -158,5 +162,593 @@ def regen(ctx):
         raise
     changed = ctx.write_gen('Tab_py2ir', table_text(t))
     ctx.cov['stages']['gen_Tab_py2ir'] = {'file': SRC, 'changed_on_disk': changed, 'binop_map': t['binops'],
-                                          'compare_map': t['cmps'], 'floordiv_prog': t['floordiv']}
+                                          'compare_map': t['cmps'], 'floordiv_prog': t['floordiv'],
+                                          'for_skeleton': t['for']}
     return t
+
+
+# ------------------------------------------------------------------ gen_for skeleton (export + correspondence)
+SK_STRAIGHT = ('def f(a: int, b: int) -> int:\n    s = 0\n    for i in range(a):\n        s = s + i\n    return s\n')
+SK_CONT = ('def f(a: int, b: int) -> int:\n    s = 0\n    for i in range(a):\n        if i == b:\n            continue\n'
+           '        s = s + i\n    return s\n')
+SK_BREAK = ('def f(a: int, b: int) -> int:\n    s = 0\n    for i in range(a):\n        if i == b:\n            break\n'
+            '        s = s + i\n    return s\n')
+SK_AFTER = 'def f(a: int, b: int) -> int:\n    s = 0\n    for i in range(a):\n        s = s + i\n    return i\n'
+
+
+def compile_noverify(src):
+    """python_to_ir without the final verify_module (the source as found builds CFGs the verifier rejects)"""
+    python_to_ir, _, _ = _impl()
+    import ppci.lang.python.python2ir as p2
+    saved = p2.irutils.verify_module
+    p2.irutils.verify_module = lambda m: None
+    try:
+        return python_to_ir(io.StringIO(src))
+    finally:
+        p2.irutils.verify_module = saved
+
+
+def loop_skeleton(src):
+    """roles of the blocks gen_for built: (phi inputs, back-edge block, continue target, break target)"""
+    from ppci import ir
+    m = compile_noverify(src)
+    f = [x for x in m.functions if x.name == 'f'][0]
+    phis = [i for b in f for i in b if isinstance(i, ir.Phi)]
+    if len(phis) != 1:
+        raise TieBroken('expected one phi, found %d' % len(phis))
+    phi = phis[0]
+    test = phi.block
+    cj = test.last_instruction
+    if not isinstance(cj, ir.CJump) or cj.a is not phi or cj.cond != '<':
+        raise TieBroken('test block does not end in CJump(i_phi < n)')
+    body, final = cj.lab_yes, cj.lab_no
+    incs = [i for b in f for i in b if isinstance(i, ir.Binop) and i.a is phi and i.operation == '+'
+            and isinstance(i.b, ir.Const) and i.b.value == 1]
+    if len(incs) != 1:
+        raise TieBroken('expected one increment of the phi')
+    inc = incs[0]
+    x = inc.block
+
+    def role(b):
+        if b is test:
+            return 'test'
+        if b is final:
+            return 'final'
+        if b is body:
+            return 'body'
+        if b is x:
+            return 'inc' if all(isinstance(i, (ir.Const, ir.Binop, ir.Jump)) for i in b) else 'body_end'
+        if b is f.entry or phi.inputs.get(b) is not inc and b in phi.inputs:
+            return 'entry'
+        return 'other'
+    phi_in = [(role(b), 'inc' if v is inc else 'init') for b, v in phi.inputs.items()]
+    if not isinstance(x.last_instruction, ir.Jump) or x.last_instruction.target is not test:
+        raise TieBroken('increment block does not jump to the test block')
+    cont = brk = None
+    bl = body.last_instruction
+    if isinstance(bl, ir.CJump):          # `if i == b: continue|break` at the top of the body
+        j = bl.lab_yes.last_instruction
+        if not isinstance(j, ir.Jump):
+            raise TieBroken('if-branch does not end in a jump')
+        cont = role(j.target)
+    return {'phi': phi_in, 'back': role(x), 'jump_target': cont}
+
+
+def export_for():
+    from ppci import ir
+    st = loop_skeleton(SK_STRAIGHT)
+    co = loop_skeleton(SK_CONT)
+    br = loop_skeleton(SK_BREAK)
+    if co['jump_target'] == 'test':
+        variant = 'VOrig'
+    elif co['jump_target'] == 'inc':
+        variant = 'VIncBlock'
+    else:
+        raise TieBroken('continue jumps to %r' % (co['jump_target'],))
+    m = compile_noverify(SK_AFTER)
+    f = [x for x in m.functions if x.name == 'f'][0]
+    rets = [i for b in f for i in b if isinstance(i, ir.Return)]
+    if len(rets) != 1:
+        raise TieBroken('expected one return')
+    v = rets[0].result
+    if isinstance(v, ir.Phi):
+        lv = 'LVPhi'
+    elif isinstance(v, ir.Load):
+        phi = [i for b in f for i in b if isinstance(i, ir.Phi)][0]
+        body = phi.block.last_instruction.lab_yes
+        first = body.first_instruction
+        if not (isinstance(first, ir.Store) and first.value is phi and first.address is v.address):
+            raise TieBroken('loop variable slot is not stored from the phi at the top of the body')
+        lv = 'LVSlot'
+    else:
+        raise TieBroken('loop variable after the loop is %r' % (v,))
+    return {'variant': variant, 'loopvar': lv, 'straight': st, 'cont': co, 'brk': br}
+
+
+def skeleton_cases(fx):
+    """(Coq term, real value) pairs: Model.gen_for for the exported variant vs the compiled CFGs"""
+    def val(sk, cont, brk):
+        return ([(a, b) for a, b in sk['phi']], sk['back'], cont, brk)
+    v = fx['variant']
+    return [('for_cfg_val (gen_for %s true)' % v,
+             val(fx['straight'], fx['cont']['jump_target'], fx['brk']['jump_target'])),
+            ('for_cfg_val (gen_for %s false)' % v,
+             val(fx['cont'], fx['cont']['jump_target'], fx['brk']['jump_target'])),
+            ('for_cfg_val (gen_for %s false)' % v,
+             val(fx['brk'], fx['cont']['jump_target'], fx['brk']['jump_target']))]
+
+
+# ------------------------------------------------------------------ expressions / conditions (model vs implementation)
+CONST_POOL = [0, 1, 2, 3, 7, 10, 63, 64, 255, 2 ** 31, 2 ** 32 + 5, 2 ** 62, 2 ** 63 - 1]
+VAL_POOL = [0, 1, -1, 2, -2, 3, -3, 7, -7, 8, -8, 63, 64, 100, -100, 2 ** 31 - 1, -2 ** 31, 2 ** 32, 2 ** 62, -2 ** 62,
+            2 ** 63 - 1, -2 ** 63, 2 ** 63 - 2, -2 ** 63 + 1, 3037000499, -3037000500]
+NVARS = 3
+
+
+def gen_expr(rng, depth, ops):
+    if depth == 0 or rng.random() < 0.25:
+        if rng.random() < 0.6:
+            return ('var', rng.randrange(NVARS))
+        return ('const', rng.choice(CONST_POOL) if rng.random() < 0.7 else rng.randrange(0, 1000))
+    if rng.random() < 0.04:
+        return ('neg', gen_expr(rng, depth - 1, ops))
+    return ('bin', rng.choice(ops), gen_expr(rng, depth - 1, ops), gen_expr(rng, depth - 1, ops))
+
+
+def gen_cond(rng, depth, ops):
+    if depth == 0 or rng.random() < 0.4:
+        return ('cmp', rng.choice(list(PCMPS)), gen_expr(rng, 2, ops), gen_expr(rng, 1, ops))
+    r = rng.random()
+    if r < 0.04:
+        return ('not', gen_cond(rng, depth - 1, ops))
+    return ('and' if r < 0.52 else 'or', gen_cond(rng, depth - 1, ops), gen_cond(rng, depth - 1, ops))
+
+
+def e_src(e):
+    k = e[0]
+    if k == 'var':
+        return 'x%d' % e[1]
+    if k == 'const':
+        return str(e[1])
+    if k == 'neg':
+        return '(-%s)' % e_src(e[1])
+    return '(%s %s %s)' % (e_src(e[2]), PBIN_SYM[e[1]], e_src(e[3]))
+
+
+def c_src(c):
+    k = c[0]
+    if k == 'cmp':
+        return '%s %s %s' % (e_src(c[2]), PCMPS[c[1]], e_src(c[3]))
+    if k == 'not':
+        return '(not %s)' % c_src(c[1])
+    return '(%s %s %s)' % (c_src(c[1]), k, c_src(c[2]))
+
+
+def e_coq(e):
+    k = e[0]
+    if k == 'var':
+        return '(PVar %d)' % e[1]
+    if k == 'const':
+        return '(PConst %s)' % vlib.coq_z(e[1])
+    if k == 'neg':
+        return '(PNeg %s)' % e_coq(e[1])
+    return '(PBin P%s %s %s)' % (e[1], e_coq(e[2]), e_coq(e[3]))
+
+
+def c_coq(c):
+    k = c[0]
+    if k == 'cmp':
+        return '(PCmp P%s %s %s)' % (c[1], e_coq(c[2]), e_coq(c[3]))
+    if k == 'not':
+        return '(PNot %s)' % c_coq(c[1])
+    return '(%s %s %s)' % ('PAnd' if k == 'and' else 'POr', c_coq(c[1]), c_coq(c[2]))
+
+
+PARAMS = ', '.join('x%d: int' % i for i in range(NVARS))
+
+
+def compile_quiet(src):
+    """python_to_ir; returns (module, None) or (None, 'diag'|'internal:<type>')"""
+    python_to_ir, _, _ = _impl()
+    from ppci.common import CompilerError
+    old = sys.stdout
+    sys.stdout = io.StringIO()
+    try:
+        return python_to_ir(io.StringIO(src)), None
+    except CompilerError:
+        return None, 'diag'
+    except Exception as ex:     # noqa: BLE001
+        return None, 'internal:' + type(ex).__name__
+    finally:
+        sys.stdout = old
+
+
+def ir_outcome(m, fname, args, fuel=20000):
+    """irsem_py outcome rendered as the value Coq's `toval (outcome Z)` has"""
+    import irsem_py
+    r = irsem_py.run_main(m, fname, list(args), fuel)
+    if isinstance(r, OkV):
+        return OkV(r.v[0])
+    return r
+
+
+def in64(v):
+    return I64[0] <= v < I64[1]
+
+
+class _Reject(Exception):
+    pass
+
+
+def _chk(v):
+    if isinstance(v, int) and not isinstance(v, bool) and not in64(v):
+        raise _Reject('overflow')
+    return v
+
+
+class _Instrument(ast.NodeTransformer):
+    """wrap every arithmetic result in _chk (64-bit filter) and count loop iterations (step budget);
+    the arithmetic itself is CPython's"""
+
+    def visit_BinOp(self, node):
+        self.generic_visit(node)
+        return ast.copy_location(ast.Call(ast.Name('_chk', ast.Load()), [node], []), node)
+
+    def visit_AugAssign(self, node):
+        self.generic_visit(node)
+        val = ast.Call(ast.Name('_chk', ast.Load()),
+                       [ast.BinOp(ast.Name(node.target.id, ast.Load()), node.op, node.value)], [])
+        return ast.copy_location(ast.Assign([ast.Name(node.target.id, ast.Store())], val), node)
+
+    def _loop(self, node):
+        self.generic_visit(node)
+        node.body.insert(0, ast.Expr(ast.Call(ast.Name('_tick', ast.Load()), [], [])))
+        return node
+    visit_While = _loop
+    visit_For = _loop
+
+
+def cpython_outcome(src, fname, args, budget=4000):
+    """run the source under CPython: ('ok', v) | ('reject', why) when outside the property's domain"""
+    tree = _Instrument().visit(ast.parse(src))
+    ast.fix_missing_locations(tree)
+    n = [0]
+
+    def tick():
+        n[0] += 1
+        if n[0] > budget:
+            raise _Reject('budget')
+    ns = {'_chk': _chk, '_tick': tick}
+    exec(compile(tree, '<c36>', 'exec'), ns)
+    try:
+        v = ns[fname](*args)
+    except _Reject as ex:
+        return ('reject', str(ex))
+    except ZeroDivisionError:
+        return ('reject', 'zerodiv')
+    except (ValueError, UnboundLocalError, OverflowError) as ex:
+        return ('reject', type(ex).__name__)
+    if not isinstance(v, int) or isinstance(v, bool) or not in64(v):
+        return ('reject', 'result type/range')
+    return ('ok', v)
+
+
+def expr_cases(ctx, n_expr, n_cond, n_env):
+    rng = ctx.rng
+    cases, meta = [], []
+    sup = ['Add', 'Sub', 'Mult', 'FloorDiv']
+    for k in range(n_expr + n_cond):
+        ops = sup if rng.random() < 0.8 else PBINS
+        is_cond = k >= n_expr
+        if is_cond:
+            c = gen_cond(rng, 2, ops)
+            src = 'def f(%s) -> int:\n    if %s:\n        return 1\n    return 0\n' % (PARAMS, c_src(c))
+            term = 'ctree_outcome lowcfg_cur %%s %s' % c_coq(c)
+        else:
+            e = gen_expr(rng, rng.choice([1, 2, 3, 4]), ops)
+            src = 'def f(%s) -> int:\n    return %s\n' % (PARAMS, e_src(e))
+            term = 'itree_outcome lowcfg_cur %%s %s' % e_coq(e)
+        m, err = compile_quiet(src)
+        for _ in range(n_env):
+            env = [rng.choice(VAL_POOL) if rng.random() < 0.75 else rng.randrange(-50, 50) for _ in range(NVARS)]
+            if err == 'diag':
+                val = Diag
+            elif err:
+                val = Internal
+            else:
+                val = ir_outcome(m, 'f', env)
+                if is_cond and isinstance(val, OkV):
+                    val = OkV(bool(val.v))
+            cases.append((term % vlib.to_term(env), val))
+            meta.append((src, env, val))
+            if err:
+                break
+    return cases, meta
+
+
+# ------------------------------------------------------------------ differential search on generated functions
+LOCALS = ['x', 'y', 'z', 's']
+ARGS = ['a', 'b', 'c', 'n']        # n is kept small (loop bound)
+SOPS = ['+', '-', '*', '//']
+
+
+class FGen:
+    def __init__(self, rng):
+        self.rng = rng
+        self.nloop = 0
+        self.features = set()
+        self.loopvars = []
+
+    def atom(self):
+        r = self.rng.random()
+        if r < 0.45:
+            return self.rng.choice(LOCALS + self.loopvars)
+        if r < 0.8:
+            return self.rng.choice(ARGS)
+        return str(self.rng.choice([0, 1, 2, 3, 5, 7, 10, 100, 2 ** 31, 2 ** 40]))
+
+    def expr(self, depth):
+        if depth == 0 or self.rng.random() < 0.3:
+            return self.atom()
+        op = self.rng.choice(SOPS if self.rng.random() < 0.6 else ['+', '-'])
+        if op == '//':
+            self.features.add('floordiv')
+        return '(%s %s %s)' % (self.expr(depth - 1), op, self.expr(depth - 1))
+
+    def cond(self, depth):
+        if depth == 0 or self.rng.random() < 0.55:
+            return '%s %s %s' % (self.expr(1), self.rng.choice(list(PCMPS.values())), self.expr(1))
+        self.features.add('boolop')
+        return '(%s %s %s)' % (self.cond(depth - 1), self.rng.choice(['and', 'or']), self.cond(depth - 1))
+
+    def block(self, depth, in_loop, ind):
+        out = []
+        for _ in range(self.rng.choice([1, 2, 2, 3])):
+            out += self.stmt(depth, in_loop, ind)
+        return out
+
+    def stmt(self, depth, in_loop, ind):
+        r = self.rng.random()
+        p = ' ' * ind
+        if depth > 0 and r < 0.22:
+            self.features.add('if')
+            out = [p + 'if %s:' % self.cond(2)] + self.block(depth - 1, in_loop, ind + 4)
+            if self.rng.random() < 0.6:
+                out += [p + 'else:'] + self.block(depth - 1, in_loop, ind + 4)
+            return out
+        if depth > 0 and r < 0.36 and self.nloop < 3:
+            self.nloop += 1
+            self.features.add('for')
+            v = 'i%d' % self.nloop
+            k = self.rng.random()
+            if k < 0.4:
+                rg = 'range(%d)' % self.rng.randrange(0, 6)
+            elif k < 0.7:
+                rg = 'range(n)'
+            else:
+                rg = 'range(%s, %s)' % (self.rng.choice(['0', '1', 'n', '2']), self.rng.choice(['n', '4', '(n + 2)']))
+            out = [p + 'for %s in %s:' % (v, rg)]
+            self.loopvars.append(v)
+            out += self.block(depth - 1, True, ind + 4)
+            self.loopvars.pop()
+            return out
+        if depth > 0 and r < 0.46 and self.nloop < 3:
+            self.nloop += 1
+            self.features.add('while')
+            k = 'k%d' % self.nloop
+            out = [p + '%s = 0' % k, p + 'while %s < %s:' % (k, self.rng.choice(['n', '3', '5'])),
+                   p + '    %s += 1' % k]
+            self.loopvars.append(k)
+            out += self.block(depth - 1, True, ind + 4)
+            self.loopvars.pop()
+            return out
+        if in_loop and r < 0.56:
+            kw = self.rng.choice(['break', 'continue'])
+            self.features.add(kw)
+            return [p + 'if %s:' % self.cond(1), p + '    ' + kw]
+        if r < 0.62:
+            self.features.add('return')
+            return [p + 'if %s:' % self.cond(1), p + '    return %s' % self.expr(2)]
+        if r < 0.75:
+            self.features.add('augassign')
+            return [p + '%s %s= %s' % (self.rng.choice(LOCALS), self.rng.choice(SOPS), self.expr(2))]
+        if r < 0.8:
+            self.features.add('call')
+            return [p + '%s = h(%s, %s)' % (self.rng.choice(LOCALS), self.expr(1), self.expr(1))]
+        return [p + '%s = %s' % (self.rng.choice(LOCALS), self.expr(3))]
+
+
+HELPER = 'def h(p: int, q: int) -> int:\n    if p < q:\n        return q - p\n    return p - q + 1\n\n'
+
+
+def gen_function(rng):
+    g = FGen(rng)
+    body = ['    %s = %s' % (v, rng.choice(ARGS + ['0', '1'])) for v in LOCALS]
+    # loop variables are pre-bound so that reading them after a loop that never ran is defined
+    body += ['    i1 = 0', '    i2 = 0', '    i3 = 0', '    k1 = 0', '    k2 = 0', '    k3 = 0']
+    body += g.block(3, False, 4)
+    if rng.random() < 0.25:
+        g.features.add('loopvar-after')
+        body.append('    return %s + i1' % g.expr(2))
+    else:
+        body.append('    return %s' % g.expr(2))
+    src = HELPER + 'def f(a: int, b: int, c: int, n: int) -> int:\n' + '\n'.join(body) + '\n'
+    return src, sorted(g.features)
+
+
+def gen_argvecs(rng, k):
+    out = [(0, 0, 0, 0), (-7, 2, 3, 5), (7, -2, -3, 4)]
+    while len(out) < k:
+        big = rng.random() < 0.3
+        pool = VAL_POOL if big else [-9, -7, -5, -3, -2, -1, 0, 1, 2, 3, 4, 5, 7, 8, 11, 100, -100, 1000]
+        out.append((rng.choice(pool), rng.choice(pool), rng.choice(pool), rng.choice([-2, 0, 1, 2, 3, 4, 5, 6, 7])))
+    return out[:k]
+
+
+def classify(src, feats, err):
+    if err:
+        return 'compile-' + err + ('-for' if 'for' in feats else '')
+    if 'floordiv' in feats:
+        return 'value-floordiv'
+    if 'loopvar-after' in feats:
+        return 'value-loopvar-after'
+    return 'value-' + '+'.join(f for f in feats if f in ('for', 'while', 'break', 'continue'))
+
+
+def diff_one(ctx, src, feats, vecs, st):
+    m, err = compile_quiet(src)
+    for args in vecs:
+        ref = cpython_outcome(src, 'f', args)
+        st['runs'] += 1
+        if ref[0] != 'ok':
+            st['rejected'][ref[1]] = st['rejected'].get(ref[1], 0) + 1
+            continue
+        st['accepted'] += 1
+        if err:
+            actual = err
+        else:
+            actual = ir_outcome(m, 'f', args)
+            actual = actual.v if isinstance(actual, OkV) else actual
+        if actual != ref[1]:
+            st['mismatch'] += 1
+            ctx.violation({'fn': 'python_to_ir', 'key': classify(src, feats, err), 'src': src, 'args': list(args),
+                           'expected': ref[1], 'actual': repr(actual), 'features': feats,
+                           'how_to_replay': 'compile src with ppci.lang.python.python_to_ir, run f(*args) with '
+                                            'tools/irsem_py.run_main, compare with CPython exec of src'})
+        elif (set(feats) & {'if', 'for', 'while'}) and ref[1] != 0:
+            st['nontrivial'] += 1
+        if err:
+            break
+
+
+# witnesses of the defects found while building this check; re-executed on every run
+WITNESSES = [
+    {'id': 'floordiv-trunc', 'src': 'def f(a: int, b: int) -> int:\n    return a // b\n', 'args': [-7, 2]},
+    {'id': 'floordiv-aug', 'src': 'def f(a: int, b: int) -> int:\n    a //= b\n    return a\n', 'args': [7, -2]},
+    {'id': 'for-continue', 'src': SK_CONT, 'args': [5, 2]},
+    {'id': 'for-nested-if', 'src': 'def f(a: int, b: int) -> int:\n    s = 0\n    for i in range(a):\n        if i == b:\n'
+                                   '            s = s + 1\n        s = s + i\n    return s\n', 'args': [5, 2]},
+    {'id': 'for-nested-for', 'src': 'def f(a: int, b: int) -> int:\n    s = 0\n    for i in range(a):\n'
+                                    '        for j in range(b):\n            s = s + i * j\n    return s\n', 'args': [5, 2]},
+    {'id': 'for-var-after', 'src': SK_AFTER, 'args': [5, 0]},
+    {'id': 'int-true-division', 'src': 'def f(a: int, b: int) -> int:\n    return a / b\n', 'args': [7, 2]},
+]
+
+
+def run_witness(w):
+    """(expected, actual) with CPython as expected; no domain filter needed for these"""
+    ns = {}
+    exec(w['src'], ns)
+    exp = ns['f'](*w['args'])
+    m, err = compile_quiet(w['src'])
+    if err:
+        return exp, err
+    act = ir_outcome(m, 'f', w['args'])
+    return exp, (act.v if isinstance(act, OkV) else act)
+
+
+def run(ctx):
+    thorough = not ctx.quick()
+    try:
+        t = regen(ctx)
+    except TieBroken:
+        t = None
+    ok, _ = ctx.build(['Proofs/C36_current.vo', 'Model/Py2Ir.vo', 'Gen/Tab_py2ir.vo'])
+    if ok:
+        ctx.check_props('Props/C36.v')
+    model_ok = ok or ctx.build(['Gen/Tab_py2ir.vo'])[0]
+
+    # ---- model vs implementation: expressions, conditions, for skeleton
+    if t is not None and model_ok:
+        cases, meta = expr_cases(ctx, 260 if thorough else 90, 160 if thorough else 50, 6 if thorough else 4)
+        sk = skeleton_cases(t['for'])
+        bad = ctx.run_cases('py2ir', ['Spec.IRSyntax', 'Spec.IRSem', 'Spec.PyExprSpec', 'Model.Py2Ir', 'Gen.Tab_py2ir'],
+                            cases + sk)
+        ctx.cov['stages']['expr_cases'] = {'cases': len(cases), 'skeleton_cases': len(sk),
+                                           'diag': sum(1 for _, v in cases if v is Diag),
+                                           'ok': sum(1 for _, v in cases if isinstance(v, OkV))}
+        ctx.cov['distinct_nontrivial'] += sum(1 for _, v in cases if isinstance(v, OkV) and v.v not in (0, False))
+        for src, env, val in meta[:: max(1, len(meta) // 4)]:
+            ctx.note_sample({'src': src, 'env': env, 'ir_outcome': repr(val.v) if isinstance(val, OkV) else repr(val)})
+        if bad:
+            for i in bad[:5]:
+                what = meta[i] if i < len(meta) else sk[i - len(meta)]
+                ctx.log('model/implementation disagree:', repr(what)[:400])
+            ctx.failed_stages.append(('correspondence', 'Model.Py2Ir disagrees with python_to_ir+irsem_py on %d cases, '
+                                      'first: %r' % (len(bad), (meta[bad[0]] if bad[0] < len(meta) else
+                                                                sk[bad[0] - len(meta)]),)))
+
+    # ---- witnesses of the recorded defects
+    wres = {}
+    for w in WITNESSES:
+        exp, act = run_witness(w)
+        wres[w['id']] = 'fails' if exp != act else 'passes'
+        if exp != act:
+            ctx.violation({'fn': 'python_to_ir', 'witness': w['id'], 'key': 'witness-' + w['id'], 'src': w['src'],
+                           'args': w['args'], 'expected': repr(exp), 'actual': repr(act),
+                           'how_to_replay': 'python tools/props/c36.py replay <this file>'})
+    ctx.cov['stages']['witnesses'] = wres
+
+    # ---- differential search: CPython vs python_to_ir + irsem_py
+    deep = thorough or bool(ctx.failed_stages)
+    nfun = 600 if deep else 150
+    st = {'runs': 0, 'accepted': 0, 'rejected': {}, 'mismatch': 0, 'nontrivial': 0, 'features': {}}
+    for k in range(nfun):
+        src, feats = gen_function(ctx.rng)
+        for f in feats:
+            st['features'][f] = st['features'].get(f, 0) + 1
+        diff_one(ctx, src, feats, gen_argvecs(ctx.rng, 8), st)
+        if k % max(1, nfun // 3) == 0:
+            ctx.note_sample({'function': src, 'features': feats})
+    ctx.cov['stages']['differential'] = dict(st, functions=nfun)
+    ctx.cov['evaluations'] += st['runs']
+    ctx.cov['distinct_nontrivial'] += st['nontrivial']
+    ctx.cov['exhaustive'] = False
+
+
+def replay(rec):
+    """re-execute a recorded counterexample; exit 1 while it still fails"""
+    src, args = rec['src'], rec['args']
+    if rec.get('witness'):
+        exp, act = run_witness({'src': src, 'args': args})
+    else:
+        ref = cpython_outcome(src, 'f', args)
+        exp = ref[1]
+        m, err = compile_quiet(src)
+        act = err if err else ir_outcome(m, 'f', args)
+        act = act.v if isinstance(act, OkV) else act
+    print('CPython:', exp, ' ppci (python_to_ir + irsem_py):', act)
+    return 1 if exp != act else 0
+
+
+MANIFEST = {
+    'text': 'PARTIAL (other). Coq theorems, unbounded in operand values, for exactly this fragment of '
+            'ppci/lang/python/python2ir.py: (1) integer expressions over variables, non-negative literals and + - * // as '
+            'lowered by gen_expr/gen_binop with the binop_map and the `//` instruction sequence exported from the current '
+            'source evaluate under the IR reference semantics (IRSem.eval_binop on i64) to exactly CPython\'s value whenever '
+            'CPython raises nothing and every intermediate value fits 64 bits (c36_expr_exact, c36_floordiv_seq_exact); '
+            'operators the front-end rejects (% << >> & | ^, unary -, not) are modelled as rejected; (2) conditions built '
+            'from comparisons and and/or lower to a CJump decision tree that yields CPython\'s truth value and does not '
+            'evaluate the operand short-circuiting skips (c36_cond_exact, c36_and_skips, c36_or_skips); (3) the block '
+            'skeleton gen_for builds (phi inputs, back edge, continue/break targets, loop-variable slot; variant read from '
+            'the compiled CFG on every run) performs exactly CPython\'s iterations of range(a, b) in order for every abstract '
+            'body that falls through, continues or breaks per iteration, and leaves CPython\'s value in the loop variable '
+            '(c36_for_range). For the source as found the same statements are refuted with witnesses (-7 // 2 = -3; '
+            'continue / nested control flow in a for body leaves the phi without an input; loop variable = n after the '
+            'loop) and proved on the complement (c36_expr_exact_outside, c36_for_range_orig_straight). Statements '
+            '(assignment, augmented assignment, if/while/for bodies, break/continue placement, early return, calls, stack '
+            'slots) have NO theorem: they are differential-execution validated only (generated annotated functions -> '
+            'python_to_ir -> reference IR interpreter vs CPython on boundary and random arguments, 150 functions x 8 vectors '
+            'per quick run). Floats and strings are not covered at all.',
+    'note': 'theorems are about the hand model coq/Model/Py2Ir.v + tables regenerated from the source; model and '
+            'implementation are compared on every run (random expressions/conditions incl. rejected operators, compiled '
+            'loop CFG shapes). Trusted: Coq kernel, the export code, the transcription, Spec/IRSem.v as IR meaning, '
+            'tools/irsem_py.py, CPython == Spec/PyExprSpec.v. Green only with fixes C36-1..3 applied; int `/` (true '
+            'division compiled to integer division) stays a known finding. No axioms.',
+    'technique': 'Coq proof over hand model + exported tables; differential execution vs CPython',
+}
+
+
+if __name__ == '__main__' and len(sys.argv) >= 3 and sys.argv[1] == 'replay':
+    sys.path.insert(0, os.path.dirname(os.path.dirname(os.path.abspath(__file__))))
+    sys.exit(replay(json.load(open(sys.argv[2]))))
